@@ -32,7 +32,7 @@ RULE = ('E-hist: BFS from the initial interpreter state over a menu of %d real A
         'exactly the bytecode instructions that access module-level mutable state or names rebound with `global` (partial-order reduction). '
         'Long histories: several thousand different small make() calls in 2-3 orders, each call must give the same result in every order. E-space: re-encoding every C02 / C04-boundary '
         'configuration with the reported version, level and mask reproduces the matrix.' % len(O.OPS))
-BOUNDS = {"quick": "histories n <= 2 (all ordered pairs) + the same ~5900 calls in two orders; schedules p <= 1 at line granularity for 3 encoder pairs and 2 shared-symbol pairs, at call granularity for 2 encoder + 4 serializer pairs, at line granularity restricted to helpers.py for 5 helper pairs; p <= 2 at shared-access granularity for 4 pairs and p <= 1 for 11 more (for the same-operation pairs only thread 0 is preempted in the quick tier)",
+BOUNDS = {"quick": "histories n <= 2 (all ordered pairs) + the same ~5900 calls in two orders; schedules p <= 1 at line granularity for 2 encoder pairs and 2 shared-symbol pairs, at call granularity for 4 encoder + 4 serializer pairs, at line granularity restricted to helpers.py for 5 helper pairs; p <= 2 at shared-access granularity for 4 pairs and p <= 1 for 11 more (for the same-operation pairs only thread 0 is preempted in the quick tier)",
           'thorough': 'histories n <= 3 on a 22-operation core menu (n <= 2 on all); p <= 1 at line granularity for all small pairs, at call '
                       'granularity for 6 large pairs, at opcode granularity for 2 pairs; p <= 2 for (fail_mode || make M1) at line and '
                       '(fail_mode || save ppm) at call granularity; p <= 2 at shared-access granularity for 15 pairs and at line granularity '
@@ -293,7 +293,7 @@ def _sched_task(task):
             if 'Deadlock' not in str(e):
                 raise
             out.append({'start': start, 'switches': list(switches), 'bad': True, 'deadlock': str(e)[-200:], 'steps': [0, 0], 'preemptions': 0})
-    return (a, b, gran, status, steps, out)
+    return (a, b, gran, status, steps, out) + ((task[5],) if len(task) > 5 else ())
 
 
 def plan_schedules(tier):
@@ -301,7 +301,7 @@ def plan_schedules(tier):
     q = tier == 'quick'
     plan = []
     for i, (a, b) in enumerate(PAIRS_SMALL):
-        plan.append((a, b, 'line' if (not q or i in (0, 2, 4)) else 'call', 1))
+        plan.append((a, b, 'line' if (not q or i in (0, 4)) else 'call', 1))
     for (a, b) in PAIRS_SAVE:
         heavy = (a, b) in (('make_1h', 'make_1h_other'), ('iter_verbose_v2_a', 'iter_verbose_v2_b'))
         if q and (a, b) == ('iter_verbose_v2_a', 'iter_verbose_v2_b'):
@@ -323,6 +323,7 @@ def plan_schedules(tier):
             plan.append((a, b, 'call', 1))
         for (a, b) in PAIRS_SMALL[:2]:
             plan.append((a, b, 'opcode', 1))
+        plan = [x for x in plan if x != ('fail_mode', 'make_m1_numeric', 'line', 1)]         # (contained in the p <= 2 entry)
         plan.append(('fail_mode', 'make_m1_numeric', 'line', 2))
         plan.append(('fail_mode', 'ppm_small_a', 'call', 2))
     return plan
@@ -482,7 +483,7 @@ def main(tier, seed, jobs, t0):
         phase['schedule_profiles_s'] = round(time.time() - tp, 1); tp = time.time()
         tasks = []
         per_pair = {}
-        for (a, b, gran, bound), (status, prefs, steps, _s2) in zip(plan, profiles):
+        for pi, ((a, b, gran, bound), (status, prefs, steps, _s2)) in enumerate(zip(plan, profiles)):
             if status != 'ok':
                 acc.violation('thread-unstable/%s+%s' % (a, b), 'pair (%s, %s): even the two non-preemptive schedules disagree with the sequential '
                               'references or with each other (steps %r)' % (a, b, steps), ('sched', a, b, gran, 0, []))
@@ -497,12 +498,12 @@ def main(tier, seed, jobs, t0):
             random.Random(seed).shuffle(allsch)
             size = max(1, min(100, len(allsch) // (jobs * 2) or 1))
             for i in range(0, len(allsch), size):
-                tasks.append((a, b, gran, allsch[i:i + size], prefs))
-            per_pair[(a, b, gran)] = {'pair': [a, b], 'granularity': gran, 'preemption_bound': bound, 'scheduling_points': list(steps),
+                tasks.append((a, b, gran, allsch[i:i + size], prefs, pi))
+            per_pair[pi] = {'pair': [a, b], 'granularity': gran, 'preemption_bound': bound, 'scheduling_points': list(steps),
                                       'schedules': 0, 'failing': 0, 'expected': len(allsch)}
         random.Random(seed).shuffle(tasks)
-        for (a, b, gran, _st, _steps, recs) in pool.imap_unordered(_sched_task, tasks):
-            pp = per_pair[(a, b, gran)]
+        for (a, b, gran, _st, _steps, recs, pi) in pool.imap_unordered(_sched_task, tasks):
+            pp = per_pair[pi]
             for rec in recs:
                 pp['schedules'] += 1
                 acc.evals += 1
